@@ -412,7 +412,7 @@ def split_traces(path):
     with open(path) as f:
         cur = None
         for no, line in enumerate(f, 1):
-            if '"op":"reset"' in line or cur is None:
+            if '"op":"reset"' in line or '"op": "reset"' in line or cur is None:
                 cur = (no, [])
                 traces.append(cur)
             cur[1].append(line)
